@@ -425,12 +425,49 @@ func (r *runner) oneOp(g int, rng *rand.Rand, late bool, forceAfterCancel bool) 
 		cancel()
 	case "copyto":
 		dst := filepath.Join(r.sc.Dir, fmt.Sprintf("copy-%d", r.copyN.Add(1)))
+		// every other backup is a burst: three more backups start at the same instant
+		// (a backup scheduler firing several jobs) - their first steps overlap
+		burst := 0
+		if rng.Intn(2) == 0 {
+			burst = 3
+		}
 		r.call(g, "copyto", 0, 0, func() error {
 			ci, ok := idx.(bleve.IndexCopyable)
 			if !ok {
 				return fmt.Errorf("not copyable")
 			}
-			return ci.CopyTo(bleve.FileSystemDirectory(dst))
+			if burst == 0 {
+				return ci.CopyTo(bleve.FileSystemDirectory(dst))
+			}
+			start := make(chan struct{})
+			errs := make([]error, burst+1)
+			pans := make([]interface{}, burst+1)
+			var wg sync.WaitGroup
+			for k := 0; k <= burst; k++ {
+				wg.Add(1)
+				go func(k int) {
+					defer wg.Done()
+					defer func() { pans[k] = recover() }()
+					<-start
+					errs[k] = ci.CopyTo(bleve.FileSystemDirectory(fmt.Sprintf("%s-b%d", dst, k)))
+				}(k)
+			}
+			close(start)
+			wg.Wait()
+			for k := 0; k <= burst; k++ {
+				_ = os.RemoveAll(fmt.Sprintf("%s-b%d", dst, k))
+			}
+			for _, p := range pans {
+				if p != nil {
+					panic(p)
+				}
+			}
+			for _, e := range errs {
+				if e != nil {
+					return e
+				}
+			}
+			return nil
 		})
 		_ = os.RemoveAll(dst)
 	}
